@@ -12,6 +12,12 @@ unit_src = sys.argv[sys.argv.index("--unit-demo") + 1] if "--unit-demo" in sys.a
 patch = os.path.join(wt, "mutant_%s.diff" % letter)
 demo = os.path.join(wt, "demo_%s.rs" % letter)
 TGT = "/tmp/seed_target_%d" % os.getpid()
+if not os.path.isdir("/tmp/seed_target"):
+    # pre-built test binaries of the unchanged tree (only a cache: rebuilt when missing)
+    _d = "/tmp/seed_build_%d" % os.getpid()
+    subprocess.run([os.path.join(V, "tools/mutant.sh"), _d], check=True)
+    subprocess.run(["cargo", "test", "--offline", "--no-run"], cwd=_d, env=dict(os.environ, CARGO_TARGET_DIR="/tmp/seed_target", CARGO_NET_OFFLINE="true"), capture_output=True)
+    shutil.rmtree(_d, ignore_errors=True)
 subprocess.run(["cp", "-r", "/tmp/seed_target", TGT], check=True)
 env = dict(os.environ, CARGO_TARGET_DIR=TGT, CARGO_NET_OFFLINE="true", CARGO_TERM_COLOR="never")
 def sh(cmd, cwd, **kw):
